@@ -358,6 +358,12 @@ static int do_cv_wait (int mi, int ci, int writer, int style, int dlcode, int ni
 		r = nsync_cv_wait_with_deadline_generic (cv, mu, writer ? &gen_lock : &gen_rlock, writer ? &gen_unlock : &gen_runlock,
 							 dl_time (dl_ns), note);
 		break;
+	case 4:
+		/* the generic entry point given nsync's own lock functions: nsync recognises them and treats the mutex natively */
+		nsim_op_begin ("nsync_cv_wait_with_deadline_generic(nsync_mu)");
+		if (writer) r = nsync_cv_wait_with_deadline_generic (cv, mu, (void (*) (void *)) &nsync_mu_lock, (void (*) (void *)) &nsync_mu_unlock, dl_time (dl_ns), note);
+		else r = nsync_cv_wait_with_deadline_generic (cv, mu, (void (*) (void *)) &nsync_mu_rlock, (void (*) (void *)) &nsync_mu_runlock, dl_time (dl_ns), note);
+		break;
 	default: {
 		struct nsync_waitable_s wb;
 		struct nsync_waitable_s *pw = &wb;
